@@ -75,6 +75,10 @@ func init() {
 		params, has := parseParams(c.Fields[1])
 		return fmtCompile(compileWith(unhex(c.Fields[0]), params, has))
 	}
+	// EVAL src dbseed : compile; the driver evaluates SQL and pipeline on small databases
+	moreOps["EVAL"] = func(c Case) string {
+		return fmtCompile(compileWith(unhex(c.Fields[0]), nil, false))
+	}
 	// QUOTE s|i bytes
 	moreOps["QUOTE"] = func(c Case) string {
 		if c.Fields[0] == "s" {
